@@ -21,10 +21,32 @@ def applyOp (p : Para) (op : String) : Option Para :=
     | _ => none
   else none
 
+/-- the notation of `encItem`, read back -/
+def decItem (tok : String) : Option Item :=
+  if tok == "TAB" then some .tab
+  else if tok == "LB" then some .lb
+  else if tok.startsWith "T" then (decStr (tok.drop 1).toString).map .str
+  else if tok.startsWith "S" then (tok.drop 1).toString.toNat?.map .s
+  else if tok.startsWith "E" then
+    match (tok.drop 1).toString.splitOn ":" with
+    | [id, t] => match id.toNat?, decStr t with
+        | some id, some t => some (.el id t)
+        | _, _ => none
+    | _ => none
+  else none
+
 def handle : List String → String
   | "seq" :: ops =>
     match ops.foldlM applyOp ([] : Para) with
     | some p => "ok " ++ " ".intercalate (p.map encItem) ++ " | " ++ encStr (innerText p) ++ " | " ++ encStr (collapse p)
+    | none => "bad-op"
+  -- `rebuild <items…>`: an existing container (its text nodes possibly holding raw blanks / tabs / newlines, e.g. after a
+  -- replacement) re-encoded by `append_plain_text("")`, as `Element.replace(..., formatted=True)` does
+  | "rebuild" :: items =>
+    match items.mapM decItem with
+    | some p =>
+      let q := appendPlainText p []
+      "ok " ++ " ".intercalate (q.map encItem) ++ " | " ++ encStr (innerText q) ++ " | " ++ encStr (innerText p)
     | none => "bad-op"
   | _ => "bad-op"
 
